@@ -400,6 +400,13 @@ def build_corpus(tier: str) -> dict[str, list[str]]:
     fam["resources"] = resource_family()
     fam["aggregates"] = aggregate_family()
     fam["tiny"] = tiny_family()
+    from . import drv_hunt as dh          # round-4 families (hunt reports, seeds C03-c C04-c C09-c)
+    fam["first_statement"] = dh.first_statement_family()
+    fam["decorated_constant"] = dh.decorated_constant_family()
+    fam["oneline_compound"] = dh.oneline_compound_family()
+    fam["compile_only"] = dh.compile_only_family()
+    fam["unorderable"] = dh.unorderable_family()
+    fam["alias_chains"] = dh.alias_chain_family()
     if tier == "quick":
         fam["functions"] = fam["functions"][::5]
     return fam
@@ -421,7 +428,7 @@ def _site_of(tb_list) -> tuple[str, str, list[str]]:
     for i, (fn, name) in enumerate(frames):
         if name in ("_multi_run_fixes", "format_code") and fn == "main.py":
             for fn2, name2 in frames[i + 1:]:
-                if name2 not in ("wrapper", "func_chain", "_schedule_rewrites", "_multi_run_fixes", "fill_transaction", "<genexpr>"):
+                if name2 not in ("wrapper", "func_chain", "_schedule_rewrites", "_multi_run_fixes", "_format_code", "fill_transaction", "<genexpr>"):
                     stage = f"{fn2[:-3]}.{name2}"
                     break
     inner = f"{pyre[-1][0][:-3]}.{pyre[-1][1]}" if pyre else ""
@@ -485,6 +492,18 @@ def _worker_main(conn, repo: str):
                         raise TypeError(f"format_code returned {type(nxt).__name__}")
                     res["outs"].append(nxt)
                     if nxt == cur and len(res["outs"]) >= 2:
+                        break
+                    cur = nxt
+            if not isinstance(opts, str) and opts.get("repeat"):
+                # call history: the same text again, later in the same process (after the first sequence)
+                res["outs2"] = []
+                cur = src
+                for _ in range(iters):
+                    kw = {"max_line_length": opts["max_line_length"]} if opts.get("max_line_length") else {}
+                    nxt = main.format_code(cur, safe=opts["safe"], keep_imports=opts["keep_imports"],
+                                           preserve=frozenset(opts["preserve"]), **kw)
+                    res["outs2"].append(nxt)
+                    if nxt == cur and len(res["outs2"]) >= 2:
                         break
                     cur = nxt
             signal.setitimer(signal.ITIMER_REAL, 0)
